@@ -12,6 +12,7 @@ from units.c07 import item, ifn, filter_enum, VO, VI, VR, CC, ML
 MISC = "sway-core/src/asm_generation/fuel/optimizations/misc.rs"
 HOST = {"kind": "impl_fn", "self_ty": "AbstractInstructionSet", "name": "remove_redundant_ops"}
 KEEP = set("NOOP MOVE MCP MCPI ADD ADDI MOVI LW NOT".split())
+MODELLED = set("NOOP MOVE MCP MCPI MOVI NOT".split())   # variants fn step has VM semantics for; ADD/ADDI/LW only exercise the `_ => false` path
 
 ENV = r'''
 #![allow(unused, dead_code, non_snake_case, non_camel_case_types, unreachable_patterns, clippy::all)]
@@ -215,7 +216,7 @@ def build(tier):
         raise vf.Undecided("remove_redundant_ops: the first `let remove` is no longer `match &op.opcode { .. }`; the classification contract does not apply")
     # every variant the statement names must be in the kept subset, otherwise the subsetting (R8) would hide an arm
     named = set(re.findall(r"VirtualOp::([A-Z][A-Z0-9_]*)", let))
-    missing = named - KEEP
+    missing = named - MODELLED
     if missing:
         raise vf.Undecided("remove_redundant_ops now names VirtualOp variant(s) %s, for which the unit has neither a generator nor a VM model: the classification contract cannot be applied" % ", ".join(sorted(missing)))
     keep = KEEP | named
